@@ -167,6 +167,19 @@ where
 //@ pub closed spec fn at_fresh_line(&self) -> bool { is_fresh(term_run(self.writer.evs())) }
 //@ /// everything except editor and decoder is in place (state inside process_byte)
 //@ pub closed spec fn wf_inner(&self) -> bool { self.hist_wf() }
+//@ /// the recorded lines (oldest first), the navigation position and the size of the history buffer
+//@ #[cfg(feature = "history")]
+//@ pub closed spec fn hist_entries(&self) -> Seq<Seq<u8>> { self.history.entries() }
+//@ #[cfg(not(feature = "history"))]
+//@ pub closed spec fn hist_entries(&self) -> Seq<Seq<u8>> { Seq::empty() }
+//@ #[cfg(feature = "history")]
+//@ pub closed spec fn hist_nav(&self) -> Option<int> { self.history.nav() }
+//@ #[cfg(not(feature = "history"))]
+//@ pub closed spec fn hist_nav(&self) -> Option<int> { None }
+//@ #[cfg(feature = "history")]
+//@ pub closed spec fn hist_cap(&self) -> int { self.history.cap() }
+//@ #[cfg(not(feature = "history"))]
+//@ pub closed spec fn hist_cap(&self) -> int { 0 }
 //@ #[cfg(feature = "history")]
 //@ pub closed spec fn same_hist(&self, o: &Self) -> bool { self.history == o.history }
 //@ #[cfg(not(feature = "history"))]
@@ -349,6 +362,8 @@ where
 
         f(&mut cli_writer)?;
 
+//@ let ghost evs_h = cli_writer.evs();
+//@ let ghost out_h = cli_writer.out();
         // we should write back input that was there before writing
         if cli_writer.is_dirty() {
 //@ let ghost evs2 = self.writer.evs();
@@ -361,6 +376,11 @@ where
 //@ }
         }
 //@ let ghost evs3 = self.writer.evs();
+//@ proof {   // [C13]
+//@     // C13: exactly one line break is added, and only when the output is non-empty and does not end with one
+//@     lemma_crlf_bytes();
+//@     assert(evs3 == (if out_h.len() > 0 && out_h.last() != 0x0A { evs_h.push(Ev::W(seq![0x0Du8, 0x0Au8])) } else { evs_h }));
+//@ }
 //@ proof {   // [C06,C13]
 //@     if evs3.len() == evs1.len() { assert(evs3 =~= evs3.subrange(0, evs1.len() as int)); }
 //@     assert(is_fresh(term_run(evs3)));
@@ -480,7 +500,7 @@ where
 
     fn on_text_input(&mut self, editor: &mut Editor<CommandBuffer>, text: &str) -> Result<(), E> {
 //@ requires old(editor).wf(), text@.len() == 1,
-//@ ensures final(editor).wf(), final(editor).cap() == old(editor).cap(), final(self).rest_eq(old(self)),
+//@ ensures final(editor).wf(), final(editor).cap() == old(editor).cap(), final(self).rest_eq(old(self)),   // [C01,C02,C03,C05,C06,C11,C14,C17]
 //@     // C05/C14: the edit does not depend on the sink: the character goes in at the cursor iff it fits
 //@     ({ let fits = old(editor).line_bytes().len() + text.spec_bytes().len() <= old(editor).cap();
 //@        let c = old(editor).cur() as int; let l = old(editor).line();
@@ -544,7 +564,7 @@ where
         processor: &mut P,
     ) -> Result<(), E> {
 //@ requires old(editor).wf(), old(self).wf_inner(),
-//@ ensures final(editor).wf(), final(self).wf_inner(), final(editor).cap() == old(editor).cap(),   // [C14,C03]
+//@ ensures final(editor).wf(), final(self).wf_inner(), final(editor).cap() == old(editor).cap(),   // [C14,C03,C01,C02,C05,C06,C11,C17]
 //@     final(self).editor == old(self).editor, final(self).input_generator == old(self).input_generator,
 //@     r is Ok ==> final(self).sink_ok(old(self)),   // [C14,C15]
 //@     // C01: no key but Enter invokes the handler
@@ -571,6 +591,31 @@ where
 //@     // C14: after a failed Enter the line is as it was or cleared, never a tokenised mixture
 //@     control is Enter && r is Err ==> (final(editor).line_bytes() == old(editor).line_bytes() && final(editor).cur() == old(editor).cur())
 //@         || (final(editor).line_bytes() == Seq::<u8>::empty() && final(editor).cur() == 0),   // [C14]
+//@     // C05 at the session level: Backspace removes the character before the cursor, Left / Right move by one whole
+//@     // character and stop at the ends -- whatever the sink does
+//@     control is Backspace ==> ({ let l = old(editor).line(); let c = old(editor).cur() as int;
+//@         &&& c > 0 ==> final(editor).line() == l.remove(c - 1) && final(editor).cur() == c - 1
+//@         &&& c == 0 ==> final(editor).line() == l && final(editor).cur() == 0 }),   // [C05,C01,C17]
+//@     control is Back ==> final(editor).line_bytes() == old(editor).line_bytes()
+//@         && final(editor).cur() == (if old(editor).cur() > 0 { old(editor).cur() - 1 } else { 0 }) as nat,   // [C05,C01]
+//@     control is Forward ==> final(editor).line_bytes() == old(editor).line_bytes()
+//@         && final(editor).cur() == (if old(editor).cur() < old(editor).line().len() { old(editor).cur() + 1 } else { old(editor).cur() }),   // [C05,C01]
+//@     // C10 at the session level: Up / Down recall submitted lines (see navigate_history), Enter records the line as
+//@     // submitted (byte for byte, before tokenisation), every other key leaves the history alone
+//@     feat_history() && control is Up ==> final(self).hist_entries() == old(self).hist_entries()
+//@         && (match nav_older(old(self).hist_entries().len() as int, old(self).hist_nav()) {
+//@             Some(t) => final(editor).line_bytes() == (if old(self).hist_entries()[t].len() <= old(editor).cap() { old(self).hist_entries()[t] } else { Seq::<u8>::empty() }),
+//@             None => final(editor).line_bytes() == old(editor).line_bytes() && final(editor).cur() == old(editor).cur() }),   // [C10,C01]
+//@     feat_history() && control is Down ==> final(self).hist_entries() == old(self).hist_entries()
+//@         && (match nav_newer(old(self).hist_entries().len() as int, old(self).hist_nav()) {
+//@             Some(t) => final(editor).line_bytes() == (if old(self).hist_entries()[t].len() <= old(editor).cap() { old(self).hist_entries()[t] } else { Seq::<u8>::empty() }),
+//@             None => final(editor).line_bytes() == Seq::<u8>::empty() }),   // [C10,C01]
+//@     feat_history() && control is Enter && r is Ok ==> ({
+//@         let l = old(editor).line_bytes(); let es = old(self).hist_entries(); let hc = old(self).hist_cap();
+//@         &&& recordable(l, hc) ==> final(self).hist_entries() == hist_push(es, l, hc) && final(self).hist_nav() is None
+//@         &&& !recordable(l, hc) ==> final(self).hist_entries() == es && final(self).hist_nav() == old(self).hist_nav() }),   // [C10]
+//@     !(control is Enter || control is Up || control is Down) ==> final(self).hist_entries() == old(self).hist_entries()
+//@         && final(self).hist_nav() == old(self).hist_nav(),   // [C10]
 //@     // C06: after every key the terminal shows the current prompt followed by the edited line, cursor at the editor's
 //@     // cursor (as long as prompt and line are printable text)
 //@     r is Ok && old(self).disp(old(editor)) && final(self).printable_with(final(editor)) ==> final(self).disp(final(editor)),   // [C06]
@@ -658,8 +703,10 @@ where
         dir: NavigateInput,
     ) -> Result<(), E> {
 //@ requires old(editor).wf(),
-//@ ensures final(editor).wf(), final(editor).cap() == old(editor).cap(), final(self).rest_eq(old(self)),
+//@ ensures final(editor).wf(), final(editor).cap() == old(editor).cap(), final(self).rest_eq(old(self)),   // [C01,C02,C03,C05,C06,C11,C14,C17]
 //@     final(editor).line_bytes() == old(editor).line_bytes(),   // [C05]
+//@     dir is Backward ==> final(editor).cur() == (if old(editor).cur() > 0 { old(editor).cur() - 1 } else { 0 }) as nat,   // [C05,C01]
+//@     dir is Forward ==> final(editor).cur() == (if old(editor).cur() < old(editor).line().len() { old(editor).cur() + 1 } else { old(editor).cur() }),   // [C05,C01]
 //@     r is Ok ==> final(self).sink_ok(old(self)),   // [C14,C15]
 //@     // C06: the terminal cursor follows the editor cursor, and stays where it is at the ends of the line
 //@     r is Ok && old(self).disp(old(editor)) ==> final(self).disp(final(editor)),   // [C06]
@@ -686,18 +733,42 @@ where
         dir: NavigateHistory,
     ) -> Result<(), E> {
 //@ requires old(editor).wf(), old(self).wf_inner(),
-//@ ensures final(editor).wf(), final(self).wf_inner(), final(editor).cap() == old(editor).cap(),
+//@ ensures final(editor).wf(), final(self).wf_inner(), final(editor).cap() == old(editor).cap(),   // [C01,C02,C03,C05,C06,C11,C14,C17]
 //@     final(self).editor == old(self).editor, final(self).input_generator == old(self).input_generator, final(self).prompt == old(self).prompt,
 //@     r is Ok ==> final(self).sink_ok(old(self)),   // [C14,C15]
 //@     // C06: a recalled line (or the empty line past the newest) replaces what the terminal showed; otherwise nothing changes
 //@     r is Ok && old(self).disp(old(editor)) && final(self).printable_with(final(editor)) ==> final(self).disp(final(editor)),   // [C06]
+//@     // C10 at the session level: Up puts the next older submitted line into the editor, byte for byte (past the oldest
+//@     // nothing changes); Down the next newer one, or the empty line past the newest.  The sink plays no role.
+//@     ({ let es = old(self).hist_entries(); let n = es.len() as int; let nav = old(self).hist_nav();
+//@        let cap = old(editor).cap();
+//@        &&& final(self).hist_entries() == es
+//@        &&& dir is Older ==> (match nav_older(n, nav) {
+//@                Some(t) => final(self).hist_nav() == Some(t)
+//@                    && final(editor).line_bytes() == (if es[t].len() <= cap { es[t] } else { Seq::<u8>::empty() }),
+//@                None => final(self).hist_nav() == nav && final(editor).line_bytes() == old(editor).line_bytes()
+//@                    && final(editor).cur() == old(editor).cur() })
+//@        &&& dir is Newer ==> final(self).hist_nav() == nav_newer(n, nav) && (match nav_newer(n, nav) {
+//@                Some(t) => final(editor).line_bytes() == (if es[t].len() <= cap { es[t] } else { Seq::<u8>::empty() }),
+//@                None => final(editor).line_bytes() == Seq::<u8>::empty() }) }),   // [C10,C01]
         let history_elem = match dir {
             NavigateHistory::Older => self.history.next_older(),
             NavigateHistory::Newer => self.history.next_newer().or(Some("")),
         };
         if let Some(element) = history_elem {
+//@ let ghost eb = element.spec_bytes();
             editor.clear();
             editor.insert(element);
+//@ proof {   // [C10,C01]
+//@     broadcast use lemma_str_view_bytes;
+//@     if eb.len() <= editor.cap() {
+//@         assert(Seq::<char>::empty().subrange(0, 0) + element@ + Seq::<char>::empty().subrange(0, 0) =~= element@);
+//@         editor.lemma_line_valid();
+//@         decode_utf8_encode_utf8(editor.line_bytes()); decode_utf8_encode_utf8(eb);
+//@         assert(editor.line_bytes() == eb);
+//@     }
+//@     reveal_strlit("");
+//@ }
 //@ proof {
 //@     assert(Seq::<char>::empty().subrange(0, 0) + element@ + Seq::<char>::empty().subrange(0, 0) =~= element@);
 //@     assert(editor.cur() == editor.line().len());
@@ -726,7 +797,7 @@ where
         editor: &mut Editor<CommandBuffer>,
     ) -> Result<(), E> {
 //@ requires old(editor).wf(),
-//@ ensures final(editor).wf(), final(editor).cap() == old(editor).cap(), final(self).rest_eq(old(self)),
+//@ ensures final(editor).wf(), final(editor).cap() == old(editor).cap(), final(self).rest_eq(old(self)),   // [C01,C02,C03,C05,C06,C11,C14,C17]
 //@     r is Ok ==> final(self).sink_ok(old(self)),   // [C14,C15]
 //@     // C11 (top level): Tab on a line that is a single partially typed word (up to the blanks right of the cursor)
 //@     // extends it by what the names of C plus the built-in `help` that start with the word have in common --
@@ -861,6 +932,8 @@ where
 //@ proof {   // [C06,C13]
 //@     if handle.writer.evs().len() == evs0.len() { assert(handle.writer.evs() =~= handle.writer.evs().subrange(0, evs0.len() as int)); }
 //@ }
+//@ let ghost evs_h = handle.writer.evs();
+//@ let ghost out_h = handle.writer.out();
         if handle.writer.is_dirty() {
 //@ let ghost evs2 = self.writer.evs();
             self.writer.write_str(codes::CRLF)?;
@@ -872,6 +945,11 @@ where
 //@ }
         }
 //@ let ghost evs3 = self.writer.evs();
+//@ proof {   // [C13]
+//@     // C13: exactly one line break is added, and only when the output is non-empty and does not end with one
+//@     lemma_crlf_bytes();
+//@     assert(evs3 == (if out_h.len() > 0 && out_h.last() != 0x0A { evs_h.push(Ev::W(seq![0x0Du8, 0x0Au8])) } else { evs_h }));
+//@ }
 //@ proof { lemma_term_push(evs3, Ev::F); }   // [C06,C13]
         self.writer.flush()?;
 
@@ -984,6 +1062,8 @@ where
 //@ proof {   // [C06,C13]
 //@     if writer.evs().len() == evs0.len() { assert(writer.evs() =~= writer.evs().subrange(0, evs0.len() as int)); }
 //@ }
+//@ let ghost evs_h = writer.evs();
+//@ let ghost out_h = writer.out();
         if writer.is_dirty() {
 //@ let ghost evs2 = self.writer.evs();
             self.writer.write_str(codes::CRLF)?;
@@ -995,6 +1075,11 @@ where
 //@ }
         }
 //@ let ghost evs3 = self.writer.evs();
+//@ proof {   // [C13]
+//@     // C13: exactly one line break is added, and only when the output is non-empty and does not end with one
+//@     lemma_crlf_bytes();
+//@     assert(evs3 == (if out_h.len() > 0 && out_h.last() != 0x0A { evs_h.push(Ev::W(seq![0x0Du8, 0x0Au8])) } else { evs_h }));
+//@ }
 //@ proof { lemma_term_push(evs3, Ev::F); }   // [C06,C13]
         self.writer.flush()?;
 
